@@ -1,8 +1,9 @@
 #!/bin/bash
 # Applies each behaviour-preserving refactoring to a scratch copy of /repo and runs ALL quick checks:
 # any VIOLATION is a false alarm.  Usage: tools/run_refactors.sh [dir] ; PAR=<n> refactors in parallel.
-cd /verif
-DIR=${1:-/verif/refactors}
+V=$(cd "$(dirname "$0")/.." && pwd); cd $V
+(cd $V/mirfacts && cargo build --release --offline -q) 2>/dev/null
+DIR=${1:-$V/refactors}
 one() {
   d=$1; id=$(basename $d)
   S=$(mktemp -d /tmp/refrun.XXXXXX)
